@@ -153,9 +153,11 @@ func (tds *Conn) Close() error {
 
 	var tdsChannels []*Channel
 	// tdsChannels := make([]*Channel, len(tds.tdsChannels))
+	tds.tdsChannelsLock.RLock()
 	for _, channel := range tds.tdsChannels {
 		tdsChannels = append(tdsChannels, channel)
 	}
+	tds.tdsChannelsLock.RUnlock()
 
 	for _, channel := range tdsChannels {
 		if err := channel.Close(); err != nil {
